@@ -10,7 +10,7 @@ from checks import docs, loadlib, loadcheck
 PROP = 'C02'
 TARGETS = ['theories/Proofs/EscapeProofs.v', 'theories/Proofs/IntTextProofs.v', 'theories/Proofs/GrammarObligations.v',
            'theories/Proofs/StrictWholeProofs.v', 'theories/Proofs/SeqMonoProofs.v', 'theories/Proofs/ParseOrderProofs.v',
-           'theories/Proofs/LineOffsetProofs.v', 'theories/Proofs/ParseTraceProofs.v', 'theories/Proofs/LoadWriteDocProofs.v', 'theories/Proofs/LinePreservationProofs.v', 'theories/Proofs/IfdataTraceProofs.v', 'theories/Run/RunLoad.v']
+           'theories/Proofs/LineOffsetProofs.v', 'theories/Proofs/ParseTraceProofs.v', 'theories/Proofs/LoadWriteDocProofs.v', 'theories/Proofs/LinePreservationProofs.v', 'theories/Proofs/IfdataTraceProofs.v', 'theories/Proofs/IfdataUnknownTraceProofs.v', 'theories/Run/RunLoad.v']
 ROUNDTRIP_STAGE = True        # counts the elements of every loaded document that meet the value condition of the load -> write theorem
 RULE = ('valid documents from the regenerated grammar in strict mode (all layouts, comments, number notations, IF_DATA absent / '
         'uninterpreted / A2ML-described); boundary sweep: every integer field type of the grammar (i16 u16 i32 u32 u64) x '
